@@ -224,6 +224,39 @@ def reset_during_connect_model(ctx, repo, rule):
     ctx.floor(rule, "suspension points of _connect at which a reset was injected", n_points, 6)
 
 
+def no_jump_out_of_finally(ctx, repo, rule):
+    """`return`, `break` or `continue` inside a `finally:` block discards the exception in flight - asyncio.CancelledError
+    included: a task cancelled inside the `try` carries on as if nothing had happened (it survives the reset or the exit
+    that cancelled it and goes on to raise events and send requests).  No such jump exists anywhere in the package."""
+    n = 0
+    for fi in repo.all_functions():
+        if "/driver/packs/" in fi.mod.rel:
+            continue
+        for t in walk_no_nested(fi.node):
+            if not isinstance(t, ast.Try) or not t.finalbody:
+                continue
+            n += 1
+
+            def jumps(stmts, in_loop=False):
+                for s_ in stmts:
+                    if isinstance(s_, (ast.FunctionDef, ast.AsyncFunctionDef, ast.ClassDef)):
+                        continue
+                    if isinstance(s_, ast.Return) or (not in_loop and isinstance(s_, (ast.Break, ast.Continue))):
+                        yield s_
+                    loop_here = in_loop or isinstance(s_, (ast.For, ast.AsyncFor, ast.While))
+                    for fld in ("body", "orelse", "finalbody", "handlers"):
+                        sub = getattr(s_, fld, None)
+                        if isinstance(sub, list):
+                            subs = [x for h in sub for x in (h.body if isinstance(h, ast.ExceptHandler) else [h])]
+                            yield from jumps(subs, loop_here if fld == "body" else in_loop)
+            for j in jumps(t.finalbody):
+                ctx.ob(rule, f"{fi.qual}::finally-L{t.finalbody[0].lineno - fi.node.lineno}::{type(j).__name__.lower()}", False,
+                       f"{fi.qual}: `{ast.unparse(j)[:40]}` inside a `finally:` block discards the exception in flight - a CancelledError delivered inside the `try` is swallowed, "
+                       f"the cancelled task carries on (late events, requests after the reset, an exit that never completes)", loc(fi, j))
+    ctx.ob(rule, "finally-blocks::examined", n > 0, "no try/finally found in the package")
+    ctx.count(f"{rule}:finally blocks examined", n)
+
+
 def spa_teardown_model(ctx, repo, rule):
     """GeckoAsyncSpa.disconnect by interpretation (facts.ConnectionModel): the spa is built by its constructor, _connect
     opens the endpoint on a model event loop and starts its tasks, then disconnect() runs.  Afterwards the model
@@ -262,6 +295,39 @@ def spa_teardown_model(ctx, repo, rule):
     return raised is None and closed >= 1
 
 
+def teardown_after_endpoint_loss(ctx, repo, rule):
+    """the datagram endpoint can die on its own (a fatal socket error, the interface going away): the event loop then calls
+    the protocol's connection_lost() before anybody asks for a reset.  On the connection model: _connect, then
+    connection_lost(None) on the protocol object the factory built, then disconnect() - the reset - which must complete
+    (no exception), cancel the connection's task keys and leave the spa without endpoint references.  A disconnect that
+    fails here leaves the manager's reset half done, for good: every later reset fails the same way."""
+    from ..absint import Obj, PyRaise, Undecided
+    from ..facts import ConnectionModel
+    cm = ConnectionModel(repo)
+    dis = repo.method("GeckoAsyncSpa", "disconnect")
+    keys_started = sorted({k for _c, _n, k in cm.tasks if isinstance(k, str)})
+    proto = cm.protocol
+    cl = repo.method(proto.cls.short, "connection_lost", required=False) if isinstance(proto, Obj) and proto.cls is not None else None
+    if cl is None:
+        ctx.note("the protocol object has no connection_lost(): endpoint loss before a reset is not modelled")
+        return
+    try:
+        cm.it.steps = 0
+        cm.it.call(cl, proto, [None])
+        cm.it.steps = 0
+        cm.it.call(dis, cm.spa, [])
+        raised = None
+    except PyRaise as e:
+        raised = e.what
+    except Undecided as e:
+        raise AnalysisError(f"{dis.qual} after connection_lost on the model connection: {e}")
+    still = [k for k, v in cm.spa.attrs.items() if v is cm.transport or v is proto]
+    ctx.ob(rule, "GeckoAsyncSpa.disconnect::after-the-endpoint-was-lost", raised is None and not still and all(k in cm.cancelled for k in keys_started),
+           f"{dis.qual} after the event loop reported the endpoint lost: {'raises ' + raised if raised else 'completes'}, endpoint references left {still}, task keys cancelled {cm.cancelled} of {keys_started} - "
+           f"a reset that fails here leaves the manager with its facade and spa, its tasks cancelled, and fails again on every later attempt", dis.loc,
+           sample={"rule": rule, "raised": raised, "cancelled": [str(c) for c in cm.cancelled]})
+
+
 def check(ctx):
     repo = Repo()
     cg = callgraph(repo)
@@ -277,6 +343,7 @@ def check(ctx):
     acq = acquire_sites(repo)
     ctx.floor("R1", "endpoint acquire sites", len(acq), 2)
     model_closed = {"GeckoAsyncSpa": spa_teardown_model(ctx, repo, "R1")}
+    teardown_after_endpoint_loss(ctx, repo, "R1")
     for fi, asg, attr in acq:
         key = f"{fi.qual}::{attr}"
         if attr is None:
@@ -425,6 +492,7 @@ def check(ctx):
     from ..taskmodel import check_registry
     check_registry(ctx, repo, "R3", only=("isolation", "forgotten", "gather", "same-name"))
     reset_during_connect_model(ctx, repo, "R3")
+    no_jump_out_of_finally(ctx, repo, "R4")
 
     # ---- R4 cancellation ----------------------------------------------------
     n_handlers = 0
@@ -629,7 +697,7 @@ def shared_class_state(ctx, repo, rule, only_under=None):
                            f"{c.name}.{nm} is bound once, in the class body, to the mutable `{ast.unparse(ex)}` and {f.qual} mutates it through the instance (L{n.lineno}): "
                            f"every {c.short} in the process shares that one object, so what one connection / facade / device stores there is what the next one reads", loc(f, n))
     ctx.ob(rule, "class-level-mutable-state", True, "")
-    ctx.floor(rule, "classes inspected for shared class-level state", n_cls, 40 if not only_under else 5)
+    ctx.floor(rule, "classes inspected for shared class-level state", n_cls, 40 if not only_under else 3)
 
 
 def reset_survives_self_cancel(ctx, repo, rule):
